@@ -2160,6 +2160,9 @@ func genSlash(r *hx.Rand) *slashCase {
 		t = "http://site.example" + p
 	case 1:
 		t = "https://site.example:8443" + p
+	case 3:
+		// a scheme without a host: "http:" + path, "http://" + "/" + path (empty authority), more slashes
+		t = hx.Pick(r, []string{"http:", "http://", "https://", "http:///", "HTTP://", "ftp:", "javascript:"}) + p
 	case 2:
 		t = hx.Pick(r, []string{"*", "http://site.example", "/", "//", "///", "/\\", "//evil.com/", "//evil.com", "/%2F/", "/%2Fevil.com/", "/\\evil.com/", "/.//evil.com/"})
 	}
@@ -2201,7 +2204,9 @@ func (c *slashCase) request0() (*http.Request, string) {
 		return nil, "unparsable_target"
 	}
 	u := req.URL
-	if u.Opaque != "" || u.User != nil || u.Fragment != "" || (u.Scheme == "") != (u.Host == "") {
+	// a scheme without a host ("http:///evil.com/x/", "http:/evil.com/x/") is a request target net/http accepts: modelled
+	// (hostSet = false, nothing may precede the path of the Location); a host without a scheme does not come out of a request line
+	if u.Opaque != "" || u.User != nil || u.Fragment != "" || (u.Scheme == "" && u.Host != "") {
 		return nil, "url_form_not_modelled"
 	}
 	return req, ""
@@ -2343,6 +2348,11 @@ func fixedCases() []caseT {
 		{Kind: "T", Sl: &slashCase{Variant: "W", Policy: 0, Target: B("/\\evil.com/")}},
 		{Kind: "T", Sl: &slashCase{Variant: "W", Policy: 0, Target: B("/users/?page=2&sort=name")}},
 		{Kind: "T", Sl: &slashCase{Variant: "W", Policy: 0, Target: B("http://site.example//evil.com/")}},
+		// K17d: a scheme but no host in the request target
+		{Kind: "T", Sl: &slashCase{Variant: "N", Policy: 0, Target: B("http:///evil.com/x/")}},
+		{Kind: "T", Sl: &slashCase{Variant: "W", Policy: 0, Target: B("http:/evil.com/x/")}},
+		{Kind: "T", Sl: &slashCase{Variant: "W", Policy: 1, Target: B("https:///evil.com/x")}},
+		{Kind: "T", Sl: &slashCase{Variant: "N", Policy: 0, Target: B("http:////evil.com/x/")}},
 		// HTTP/1.0 with a Host header chosen by the client: still a path reference
 		{Kind: "T", Sl: &slashCase{Variant: "N", Policy: 0, Target: B("/users/"), HTTP10: true, Host: "evil.test"}},
 		{Kind: "T", Sl: &slashCase{Variant: "W", Policy: 1, Target: B("/users"), HTTP10: true, Host: "evil.test"}},
